@@ -71,6 +71,9 @@ FocusEvents(s) ==
 AllEvents(s) ==
        UNION {{[op |-> "supply", t |-> t, a |-> a, c |-> c] : a \in SupplyAmts(t), c \in BOOLEAN} : t \in TokensDef}
   \cup UNION {{[op |-> "withdraw", t |-> t, a |-> a] : a \in WithdrawAmts(t)} : t \in TokensDef}
+  \* a hair (4e-7: less than half the smallest unit of a 6-decimals token) more than is supplied: "moves exactly the stated amounts"
+  \* leaves no room for paying it out
+  \cup {[op |-> "withdraw", t |-> t, a |-> QAdd(SupAmt(s, t), D(4, 10000000)), rel |-> TRUE] : t \in {x \in TokensDef : HasSup(s, x)}}
   \cup UNION {{[op |-> "borrow", t |-> t, a |-> a] : a \in BorrowAmts(t)} : t \in TokensDef}
   \cup UNION {{[op |-> "repay", t |-> t, a |-> a, with |-> w] : a \in RepayAmts(t), w \in {"cash", "WETH", "USDT"}} : t \in TokensDef \ {"XTK"}}
   \cup {[op |-> "setcoll", t |-> t, c |-> c] : t \in TokensDef \ {"XTK"}, c \in BOOLEAN}
